@@ -225,4 +225,15 @@ theorem canon_as_infix_operand (po : POps) (hα : ∀ c, isLetter c = true → p
     parse_canon po hα h f]
   rfl
 
+/-- the same for every infix of a subgoal: `T op R` is the built-in predicate of the operator applied to the term of T and
+    `parse_term R` -/
+theorem canon_as_cmp_operand (po : POps) (hα : ∀ c, isLetter c = true → po.isAlpha c = true) (op : Cmp) {d : Nat} {T : Text} {t : Term}
+    (h : Canon d T t) (f : Nat) {R : Text} (hrtrim : trim R = R) (hr : R ≠ []) :
+    parseSubgoal po (3 * d + 3 + f + 1) (T ++ ' ' :: op.text ++ ' ' :: R) =
+      (parseTerm po (3 * d + 3 + f) R).bind fun r => .ok (.bip op.name (some (.cons t (.cons r .nil)))) := by
+  have hI := canon_inv h
+  rw [parseSubgoal_struct_cmp po (3 * d + 3 + f) op hI.trimmed hI.nonempty (canon_infixFree h) (canon_parenNext h) hrtrim hr,
+    parse_canon po hα h f]
+  rfl
+
 end Suiron.Parse
